@@ -1,6 +1,7 @@
 package syncer
 
 import (
+	"strconv"
 	"os"
 	"context"
 	"encoding/json"
@@ -47,7 +48,11 @@ type c18Unit struct {
 	Keys []string `json:"keys"`
 }
 
+// c18BigN is the number of commands in the transaction of kind "txnbig" (scenario field Big).
+var c18BigN = 1100
+
 type c18Scenario struct {
+	Big    int     `json:"big,omitempty"` // commands in the transaction of kind txnbig
 	Unit   c18Unit `json:"unit"`
 	Cfg    biCfg   `json:"cfg"`
 	Filter bool    `json:"filter"`
@@ -100,6 +105,19 @@ func c18Commands(u c18Unit) (cmds [][]string, keys [][]string, txn bool) {
 		return [][]string{{"MULTI"}, {"SET", k[0], "a"}, {"SET", k[1], "b"}, {"EXEC"}}, [][]string{nil, {k[0]}, {k[1]}, nil}, true
 	case "txndel":
 		return [][]string{{"MULTI"}, {"SET", k[0], "a"}, {"DEL", k[0], k[1]}, {"EXEC"}}, [][]string{nil, {k[0]}, {k[0], k[1]}, nil}, true
+	case "txnbig":
+		// a transaction with far more commands than any per-transaction constant; whether its keys
+		// share a slot depends on the two keys alone
+		cmds = append(cmds, []string{"MULTI"})
+		keys = append(keys, nil)
+		for i := 0; i < c18BigN; i++ {
+			kk := k[i%2]
+			cmds = append(cmds, []string{"SET", kk, "b" + strconv.Itoa(i)})
+			keys = append(keys, []string{kk})
+		}
+		cmds = append(cmds, []string{"EXEC"})
+		keys = append(keys, nil)
+		return cmds, keys, true
 	case "txnflt":
 		// second command is removed by the key filter; what remains is single-slot
 		return [][]string{{"MULTI"}, {"SET", k[0], "a"}, {"SET", fltPrefix + k[1], "b"}, {"EXEC"}}, [][]string{nil, {k[0]}, nil, nil}, true
@@ -122,6 +140,9 @@ func c18Exec(t *testing.T, scn c18Scenario) mc.Result {
 // c18ExecPlan: the wake-up statements of syncer/bisync.go are preemption points from the moment
 // the stream is handed over until Send has settled; scn.Plan names the points that preempt.
 func c18ExecPlan(t *testing.T, scn c18Scenario) (res mc.Result, seen, hit []string) {
+	if scn.Big > 0 {
+		c18BigN = scn.Big
+	}
 	msg := bubble(t, func() {
 		pre := installPreempt(scn.Plan)
 		defer pre.remove()
@@ -202,6 +223,13 @@ func c18ExecPlan(t *testing.T, scn c18Scenario) (res mc.Result, seen, hit []stri
 			}
 		}
 		slot := ref.HashSlotS(all[0])
+		allSet := map[string]bool{}
+		for _, k := range all {
+			allSet[k] = true
+		}
+		if len(all) > 64 {
+			all = all[:64] // what describe() prints
+		}
 		describe := func() map[string]interface{} {
 			var lines []string
 			for _, r := range glog {
@@ -257,12 +285,10 @@ func c18ExecPlan(t *testing.T, scn c18Scenario) (res mc.Result, seen, hit []stri
 						res = mc.Violation("a transaction sent to the cluster addresses more than one slot", "C18:multi-slot-block:"+shape, describe())
 						return
 					}
-					for _, uk := range all {
-						if string(k) == uk {
-							unitSeen = true
-							if r.Executed {
-								unitExecuted = true
-							}
+					if allSet[string(k)] {
+						unitSeen = true
+						if r.Executed {
+							unitExecuted = true
 						}
 					}
 					if string(k) == "after{u}" && r.Executed {
@@ -529,6 +555,35 @@ func runC18(t *testing.T, rep *mc.Reporter) {
 				}
 			}
 			rep.Exec(scn, nil, res)
+		}
+	}
+	// ---- family "big": one source transaction with far more commands than any per-transaction or
+	// buffer constant (1100 and 70 000; 300 000 in thorough), keys in one slot (never refused, one
+	// block) and in two slots (refused before anything of it is sent)
+	if fam == "" || fam == "big" {
+		sizes := []int{1100, 70000}
+		if tier == "thorough" {
+			sizes = append(sizes, 300000)
+		}
+		for _, n := range sizes {
+			for _, ks := range [][]string{{"{t}x", "y{t}"}, {"{t}x", "{u}z"}} {
+				for _, m := range modes {
+					idx++
+					if idx%nshards != shard || budget.Expired() {
+						continue
+					}
+					scn := c18Scenario{Unit: c18Unit{"txnbig", ks}, Cfg: m, Big: n}
+					rep.Scenario()
+					res := c18Exec(t, scn)
+					if res.Verdict == "violation" {
+						r2 := c18Exec(t, scn)
+						if r2.Verdict != res.Verdict || r2.Sig != res.Sig {
+							res = mc.Result{Verdict: "machinery", Clause: fmt.Sprintf("violation not reproducible: %s vs %s/%s", res.Sig, r2.Verdict, r2.Sig)}
+						}
+					}
+					rep.Exec(scn, nil, res)
+				}
+			}
 		}
 	}
 	// ---- snapshot lane: entries of a snapshot are replay units too; with replay.replaceHashTag the
